@@ -11,8 +11,8 @@ FUNCTIONS = [
     "batchie.models.main.predict_viability_all / ModelEvaluation.save_h5 / load_h5",
 ]
 BOUNDS = {
-    "quick": "holders of 1..12 samples (12 > 10 so that '10' < '2' matters), every parameter a symbolic float64 of tiny shape (float32 casts visible); both sample types, empty and non-empty single-effect table; 2 chains of lengths (3,2) and (1,11) and 3 chains (2,1,2) in every file order",
-    "thorough": "additionally 3 chains with lengths up to 12 and holders of every size 1..13",
+    "quick": "holders of 1, 2, 3, 10, 11, 12 and 101 samples ('10' < '2' and '100' < '11' matter), every parameter a symbolic float64 of tiny shape (float32 casts visible); both sample types, empty and non-empty single-effect table; 2 chains of lengths (3,2), (1,11), (11,1), (2,11), (1,1) and 3 chains (2,1,2), (11,2,1) in every file order",
+    "thorough": "holders of every size 1..25 and of 101 and 112 samples (three-digit keys: '100' < '11'), larger parameter shapes (3 samples x 3 treatments x 2 dimensions); every pair of chain lengths from {1,2,3,10,11,12}, every triple from {1,2,11}, 4, 5 and 6 chains; every file order",
 }
 ASSUMPTIONS = [
     "HDF5 is a faithful typed store whose groups iterate their keys in ASCII order ('0','1','10','11','2',...); attrs return what was stored",
@@ -27,24 +27,38 @@ BUDGET_S = {"quick": 240, "thorough": 1500}
 def configs(tier, seed):
     q = tier == "quick"
     out = []
-    for n in ((1, 2, 12) if q else range(1, 14)):
+    for n in ((1, 2, 3, 10, 11, 12, 101) if q else list(range(1, 26)) + [101, 112]):
         out.append(dict(name="roundtrip combo n=%d" % n, h="roundtrip", kind="combo", n=n))
+    if not q:
+        for n in (3, 11):
+            out.append(dict(name="roundtrip combo n=%d larger shapes" % n, h="roundtrip", kind="combo", n=n, shape=(3, 3, 2)))
+            out.append(dict(name="roundtrip interaction table n=%d larger shapes" % n, h="roundtrip", kind="inter", n=n, shape=(3, 3, 2)))
     out.append(dict(name="roundtrip interaction empty table", h="roundtrip", kind="inter_empty", n=2))
     out.append(dict(name="roundtrip interaction table", h="roundtrip", kind="inter", n=11 if q else 12))
-    for lens in ([(3, 2), (1, 11), (2, 1, 2)] if q else [(3, 2), (1, 11), (2, 1, 2), (12, 1, 3), (2, 2, 2)]):
+    if q:
+        lens_list = [(3, 2), (1, 11), (2, 1, 2), (11, 1), (2, 11), (1, 1), (11, 2, 1)]
+    else:
+        import itertools
+        lens_list = [(3, 2), (1, 11), (2, 1, 2), (12, 1, 3), (2, 2, 2)]
+        lens_list += [t for t in itertools.product((1, 2, 3, 10, 11, 12), repeat=2) if t not in lens_list]
+        lens_list += [t for t in itertools.product((1, 2, 11), repeat=3) if t not in lens_list]
+        lens_list += [(2, 1, 3, 1), (11, 2, 1, 12), (1, 1, 1, 1, 2), (1, 2, 1, 1, 3, 1)]
+    for i, lens in enumerate(lens_list):
         out.append(dict(name="concat %s" % (lens,), h="concat", lens=list(lens)))
-        out.append(dict(name="evaluate_model %s" % (lens,), h="evaluate", lens=list(lens)))
+        if q or len(lens) < 6:
+            out.append(dict(name="evaluate_model %s" % (lens,), h="evaluate", lens=list(lens)))
     out.append(dict(name="guards", h="guards"))
     return out
 
 
 def fixtures(cfg):
     v = {}
-    for i in range(40):
-        for k in range(12):
+    for i in range(40 if cfg.get("n", 0) <= 40 else 120):
+        for k in range(24):
             v["th%d_%d" % (i, k)] = 0.1 * (i + 1) + 0.01 * k
         v["th%d_prec" % i] = 1.0 + i
-    v["order0"], v["order1"], v["order2"] = 1, 0, 0
+    for i in range(5):
+        v["order%d" % i] = [1, 0, 0, 0, 0][i]
     for k in range(6):
         v["se%d" % k] = 0.3 + 0.1 * k
     return [v]
@@ -116,9 +130,9 @@ def h_roundtrip(ctx, cfg):
         lookup = {(0, -1): 1.0, (0, 0): ctx.real_bits("se0"), (1, 1): ctx.real_bits("se1"), (1, -1): 1.0}
     for i in range(n):
         if kind == "combo":
-            th, vals = _combo(ctx, sc, np, str(i))
+            th, vals = _combo(ctx, sc, np, str(i), *cfg.get("shape", (2, 2, 1)))
         else:
-            th, vals = _inter(ctx, sci, np, str(i), lookup)
+            th, vals = _inter(ctx, sci, np, str(i), lookup, *cfg.get("shape", (2, 2, 1)))
         holder.add_theta(th)
         truth.append(vals)
     ctx.prove(holder.is_complete, "holder with n of n samples is complete")
